@@ -20,7 +20,7 @@ static expression_t parse_update(const std::string& upd, bool* ok)
     static std::vector<std::unique_ptr<Document>> keep;
     keep.emplace_back(new Document());
     Document& doc = *keep.back();
-    std::string m = "int a; int b; int c; int r; bool p; bool q;\nprocess P() { state s0, s1; init s0; trans s0 -> s1 { assign " + upd + "; }; }\nsystem P;\n";
+    std::string m = "int a; int b; int c; int r; bool p; bool q; double d;\nprocess P() { state s0, s1; init s0; trans s0 -> s1 { assign " + upd + "; }; }\nsystem P;\n";
     *ok = true;
     try { parse_XTA(m.c_str(), &doc, true); } catch (...) { *ok = false; return expression_t(); }
     for (auto& t : doc.get_templates())
@@ -35,6 +35,8 @@ static bool same(const expression_t& x, const expression_t& y)
     if (x.get_kind() != y.get_kind() || x.get_size() != y.get_size()) return false;
     if (x.get_kind() == Constants::IDENTIFIER && x.get_symbol().get_name() != y.get_symbol().get_name()) return false;
     if (x.get_kind() == Constants::CONSTANT && x.str() != y.str()) return false;
+    if (x.get_kind() == Constants::CONSTANT && x.get_type().is(Constants::DOUBLE) != y.get_type().is(Constants::DOUBLE)) return false;
+    if (x.get_kind() == Constants::CONSTANT && x.get_type().is(Constants::DOUBLE) && x.get_double_value() != y.get_double_value()) return false;
     for (size_t i = 0; i < x.get_size(); ++i) if (!same(x.get(i), y.get(i))) return false;
     return true;
 }
@@ -66,10 +68,16 @@ int main()
     note("assignment-right-nested.roundtrip", roundtrip("r = a = b", &pr) && roundtrip("r = (a += b)", &pr));
     note("kf.assignment-as-left-operand-of-assignment", roundtrip("(r = a) = b", &pr));
     note("kf.inline-if-as-left-operand-of-assignment", roundtrip("(p ? a : b) = c", &pr));
+    // floating-point constants: every bit survives, and the text is a floating-point literal again
+    for (const char* lit : {"0.1234567891", "2.0", "1e-7", "1e300", "123456789.125", "0.1", "3.0e10", "4503599627370497.5"}) {
+        bool ok = roundtrip(std::string("d = ") + lit, &pr);
+        if (!ok) std::cerr << "double constant round trip fails: " << lit << "  printed: " << pr << "\n";
+        note("double-constants.print-parse-roundtrip", ok);
+    }
     // SMC queries: parse -> str -> parse -> str must be a fixpoint and must not crash (checked in a child process)
     {
         const char* queries[] = {"Pr[<=10](<> a > 1)", "Pr[<=10; 100]([] a > 1)", "Pr[#<=5](<> p)", "Pr[<=10](<> a > 1) >= 0.5", "Pr[<=10]([] p) <= 0.25",
-                                 "Pr[<=10](p U a > 1)", "E[<=10; 50](max: a)", "E[<=10; 50](min: a + b)"};
+                                 "Pr[<=10](p U a > 1)", "Pr[<=10](<> a > 1) >= 0.123456789", "Pr[<=10](<> a > 1) >= 1.0", "Pr[#<=20](<> p) >= Pr[<=5]([] a > 1)", "Pr[<=20]([] p) >= Pr[#<=5](<> a > 1)", "E[<=10; 50](max: a)", "E[<=10; 50](min: a + b)"};
         for (const char* q : queries) {
             std::cout.flush();
             pid_t pid = fork();
